@@ -1,7 +1,7 @@
 """C14 — luqum.thread.parse is thread-safe.  DESIGN 3.C14.
 
 No available verifier has a thread model; what contracts decide is CONFINEMENT, from which schedule independence follows by
-the paper lemma L-CONF (every location written during a call is reachable only from the call's arguments, from objects it
+the lemma L-CONF (Lean-checked over an abstract model, lemmas/Compose.lean: every location written during a call is reachable only from the call's arguments, from objects it
 allocated, or from an object owned by the calling thread; shared locations are only read):
 
   C14-O (proved)  thread.parse hands LRParser.parse the calling thread's own clone of the lexer - created once per thread,
@@ -92,8 +92,9 @@ def ownership_cases():
                     results[name] = ("value", TH.parse(arg))
                 except Exception as e:  # noqa: BLE001
                     results[name] = ("raised", e)
-            ths = [threading.Thread(target=worker, args=("A", inp)), threading.Thread(target=worker, args=("B", bad)),
-                   threading.Thread(target=worker, args=("C", inp))]
+            # the application names its threads as it likes: the same name for all (ownership is per thread, not per name)
+            ths = [threading.Thread(target=worker, args=("A", inp), name="worker"), threading.Thread(target=worker, args=("B", bad), name="worker"),
+                   threading.Thread(target=worker, args=("C", inp), name="worker")]
             for t in ths:
                 t.start()
             got = sum(1 for _ in range(3) if hold["inside"].acquire(timeout=10))
@@ -351,6 +352,8 @@ def plan(tier, seed):
     pl.cases = [c04.framed(c, c.key) for c in base] + c04.wrapper_cases() + ownership_cases()
     pl.canaries = [c04.canary()]
     pl.finite = [("C14-A/effect audit of the installed PLY", ply_audit), ("C04-F/grammar-facts", parsing.grammar_facts)]
+    from vfkit import lean as _leanc
+    pl.finite.append(("A6/Lean re-check of the composition lemmas L-CONF", _leanc.compose_check('L-CONF')))
     payload = ({"pool": 10, "cap": 120, "triples": 10, "cap3": 20, "stress_calls": 300, "line_pairs": 3, "line_stops": 150} if tier == "quick"
                else {"pool": 17, "cap": 3000, "triples": 60, "cap3": 200, "stress_calls": 3000, "line_pairs": 4, "line_stops": 100000})
 
@@ -363,15 +366,15 @@ def plan(tier, seed):
     pl.min_obligations = 100
     pl.replay_builder = replay_builder
     pl.assumptions = c01.ASSUMPTIONS + [
-        "L-CONF (paper): calls whose writes are confined to their own arguments, fresh objects and objects owned by the calling thread, and "
+        "L-CONF (Lean theorem `confinement` over an abstract step model, lemmas/Compose.lean; that CPython threads running luqum are an instance of it - steps atomic at the granularity of the write frames - is assumed): calls whose writes are confined to their own arguments, fresh objects and objects owned by the calling thread, and "
         "that only read shared objects, commute - every interleaving equals each call running alone",
         "A8 for threads: PLY's LRParser.parse keeps its stacks in locals; what it stores on the shared parser object is never read on luqum's "
         "paths (audited syntactically on the installed source, C14-A); CPython's GIL makes single attribute stores / loads atomic",
         "threading.local gives each thread its own attribute namespace (CPython contract)"]
     pl.trusted_base = c01.TRUSTED + ["ply.yacc / ply.lex (audited syntactically, not verified)", "CPython threading"]
     pl.lemmas = ["C14-O + C14-W + C14-A + L-CONF => each concurrent call behaves as if alone; sequential behaviour is C04 (same tree or same "
-                 "error as luqum.parser.parse).  The quantifier over schedules is discharged by the paper lemma, NOT by the verifier.",
+                 "error as luqum.parser.parse).  The quantifier over schedules is discharged by the lemma L-CONF over an abstract model, NOT by a verifier with a thread model.",
                  "C14-B (BOUNDED) explores the schedules themselves: all interleavings of two token streams (capped), sampled triples, stress"]
     pl.claim = ("confinement of luqum's own code proved per function (frames, ownership of the lexer); PLY's part audited syntactically; the "
-                "schedule quantifier rests on a paper lemma and on a bounded systematic exploration of interleavings - category `other`, not proof.")
+                "schedule quantifier rests on the lemma L-CONF (Lean-checked over an abstract step model) and on a bounded systematic exploration of interleavings - category `other`, not proof.")
     return pl
